@@ -30,6 +30,7 @@ type BlockRecord struct {
 	PrepErr, ProcErr     error
 	ProcStatus           abci.ResponseProcessProposal_ProposalStatus
 	Byzantine            bool
+	MaxGas               int64 // consensus max gas in force for this height
 }
 
 // Chain is the consensus stub driving one primary node. Replicas re-execute Records.
@@ -148,7 +149,7 @@ func (c *Chain) BuildProposal(txs [][]byte, o BlockOpts) *BlockRecord {
 		NextValidatorsHash: c.nextVals.Hash(),
 		ProposerAddress:    prop.Address,
 	}
-	return &BlockRecord{Height: h, Time: t, Block: blk, Req: req, Proposer: c.ValIndexByConsAddr(prop.Address)}
+	return &BlockRecord{Height: h, Time: t, Block: blk, Req: req, Proposer: c.ValIndexByConsAddr(prop.Address), MaxGas: c.consParams.Block.MaxGas}
 }
 
 // Propose runs the real PrepareProposal (honest proposer) and ProcessProposal on the primary.
@@ -273,6 +274,14 @@ func (c *Chain) Block(txs [][]byte, o BlockOpts) *BlockRecord {
 	return c.Decide(rec, o)
 }
 
+func (c *Chain) maxGasAt(h int64) int64 {
+	for i := len(c.Records) - 1; i >= 0; i-- {
+		if c.Records[i].Height == h {
+			return c.Records[i].MaxGas
+		}
+	}
+	return c.consParams.Block.MaxGas
+}
+
 // MaxGas returns the current consensus max gas.
 func (c *Chain) MaxGas() int64 { return c.consParams.Block.MaxGas }
-
